@@ -134,7 +134,7 @@ Spec == Init /\ [][Next]_vars /\ WF_vars(Next)
 
 Done == pc \in {"accepted", "rejected"}
 Export == Done => PrintT(<<"CASE", ToJson([kind |-> kind, toks |-> toks, c |-> Tree(toks), num |-> num,
-                                             vals |-> IF num = "fine" THEN FineTable ELSE <<>>, conts |-> Containers])>>)
+                                             vals |-> IF num = "fine" THEN FineTable ELSE <<>>, conts |-> Containers, guises |-> Guises])>>)
 
 (* ---- invariants ---- *)
 AtStart == pc = "type"                                                   \* laws of Valid / Normal are checked once per case
